@@ -154,7 +154,7 @@ def gen_case(index: int, vseed: int, info: dict) -> dict:
 # ---------------------------------------------------------------------------------------------
 
 
-def draw(case: dict, taps: bool = True) -> dict:
+def draw(case: dict, taps: bool = True, force: int = 0) -> dict:
     """Perform the draw; return {'result': ["ok", text, cc] | ["exc", class, msg], ...probes}."""
     import schwifty
     from schwifty import exceptions
@@ -164,11 +164,15 @@ def draw(case: dict, taps: bool = True) -> dict:
     tap = simrandom.EntropyTaps()
     obj = None
     try:
-        if taps:
-            with tap:
+        # every foreign entropy / clock source is pinned to a fixed value (level `force`), so that even a tree that
+        # wrongly consults one gives a repeatable result; whether it consults one is what the taps and the
+        # comparison between two force levels decide
+        with simrandom.Perturb(force):
+            if taps:
+                with tap:
+                    obj = fn(case["country"], random=prng, use_registry=case["use_registry"], **case["pinned"])
+            else:
                 obj = fn(case["country"], random=prng, use_registry=case["use_registry"], **case["pinned"])
-        else:
-            obj = fn(case["country"], random=prng, use_registry=case["use_registry"], **case["pinned"])
         cc = obj.country_code
         result = ["ok", str(obj), cc, type(obj).__name__]
     except exceptions.GenerateRandomOverflowError as e:
@@ -193,8 +197,9 @@ def check_draw(case: dict, d: dict, info: dict) -> dict | None:
                           f"**{case['pinned']}) -> {res[:3]}: {detail}"}
 
     if d["entropy"]:
-        return v("foreign-entropy", f"draw used entropy/time other than the supplied generator: {sorted(set(d['entropy']))}",
-                 tap=sorted(set(d["entropy"]))[0])
+        return v("foreign-entropy", f"the result depends on entropy/time other than the supplied generator "
+                 f"({sorted(set(d['entropy']))}): forcing those sources to two different fixed values gave "
+                 f"{d.get('perturbed')}", tap=sorted(set(d["entropy"]))[0])
     if res[0] == "overflow":
         return None
     if res[0] == "exc":
@@ -266,13 +271,24 @@ def run_cases_child(cases: list, info: dict, history_seed: int | None) -> list:
                 ops.execute(op)
     for case in cases:
         d1 = draw(case)
+        touched = False
+        if d1["entropy"]:
+            # the draw touched randomness/clocks other than the supplied generator: does the RESULT depend on them?
+            p1 = draw(case, taps=False, force=1)["result"]
+            p2 = draw(case, taps=False, force=2)["result"]
+            if p1 == p2 == d1["result"]:
+                d1["entropy"] = []  # harmless (e.g. statistics, logging): counted, not flagged
+                touched = True
+            else:
+                d1["perturbed"] = [p1[:3], p2[:3]]
         viol = check_draw(case, d1, info)
         d2 = draw(case, taps=False)
         if viol is None and d2["result"] != d1["result"]:
             viol = {"kind": "not-reproducible", "signature": {"kind": "not-reproducible", "leg": "same-process", "api": case["api"]},
                     "case": case, "result": d1["result"],
                     "detail": f"{case} gave {d1['result'][:3]} and then {d2['result'][:3]} in the same process"}
-        out.append({"index": case["index"], "result": d1["result"], "violation": viol, "prng_calls": d1["prng_calls"]})
+        out.append({"index": case["index"], "result": d1["result"], "violation": viol, "prng_calls": d1["prng_calls"],
+                    "entropy_touched_harmlessly": touched})
     return out
 
 
@@ -314,6 +330,8 @@ def worker_task(task: dict) -> dict:
         st["classes"].add(core.jdump([case["country"], case["api"], case["use_registry"], sorted(case["pinned"]), bias, kind]))
         if kind == "overflow":
             probe("overflow_raised")
+        if a.get("entropy_touched_harmlessly"):
+            probe("foreign_entropy_touched_but_result_independent")
         if bias not in ("mt", "uniform"):
             probe("scripted_biased_prng_draws", 2)
         if calls and calls > 60:
